@@ -202,9 +202,20 @@ func oracleC04(res *RunResult) []Violation {
 				out = append(out, Violation{Class: cls, Sig: cls, OpIdx: r.Idx, Detail: fmt.Sprintf("accepted update op %d (%s): %s", r.Idx, r.Req.Desc, d)})
 				continue
 			}
+			readFaulted := false
+			for _, f := range r.Fired {
+				if !strings.Contains(f, "drv.Exec") && !strings.Contains(f, "drv.Commit") && !strings.Contains(f, "drv.Rollback") {
+					readFaulted = true
+				}
+			}
+			_ = readFaulted
 			if r.RBValid && r.RBErr == nil && string(r.ReadBack) != string(r.Out) {
 				out = append(out, Violation{Class: "read_after_write_differs", Sig: "read_after_write_differs", OpIdx: r.Idx,
 					Detail: fmt.Sprintf("op %d returned %s but the read right after returned %s", r.Idx, short(r.Out), short(r.ReadBack))})
+			}
+			if r.RBValid && r.HStatus != 0 && len(r.Fired) == 0 && (r.HStatus != 200 || string(r.HBody) != string(r.Out)) {
+				out = append(out, Violation{Class: "read_after_write_differs", Sig: "read_after_write_differs/http", OpIdx: r.Idx,
+					Detail: fmt.Sprintf("op %d returned %s but HTTP GET right after answered %d %s", r.Idx, short(r.Out), r.HStatus, short(r.HBody))})
 			}
 			if r.RBValid && r.RBErr != nil && len(r.Fired) == 0 {
 				out = append(out, Violation{Class: "read_after_write_differs", Sig: "read_after_write_failed", OpIdx: r.Idx,
@@ -260,7 +271,18 @@ func init() {
 				}
 				p.Ops = append(p.Ops, o)
 			}
-			switch n % 3 {
+			p.Cfg.Extra = map[string]int64{"http_readback": 1}
+			switch n % 4 {
+			case 3:
+				// SQLite with faults inside the database driver: an update that is reported accepted must still be what a read returns
+				p.Cfg.Store, p.Cfg.Seam, p.Cfg.Clients, p.Cfg.Strategy = "sqlite", "driver", 1, "uniform"
+				for occ := 0; occ < 3*len(p.Ops); occ++ {
+					for _, call := range []string{"drv.Exec", "drv.Commit", "drv.Rollback"} {
+						if r.Chance(0.08) {
+							p.Faults = append(p.Faults, Fault{At: fmt.Sprintf("c0:%s#%d", call, occ), Kind: "fail"})
+						}
+					}
+				}
 			case 1:
 				p.Cfg.Seam, p.Cfg.Clients, p.Cfg.Jumps, p.Cfg.Strategy = "iface", 1, true, "uniform"
 				p.Tape = genTape(r, 12*len(p.Ops)+8)
